@@ -15,6 +15,9 @@ runs after editing each task), plus a real transfer of all records into an empty
 put_records followed by the same recovery tree.  TLC evaluates the contract on the logged data of
 every real run (which node the parent's job ended with, which tasks executed, the registry) and
 validates every run and every transfer against the model, CallSubtreeTask rows included.
+Both workload variants of Backend.tla are used: in the second one (child prov=False) the parent's
+subtree rows are preceded by nested record_value(task) commits, and the model requires them to appear
+in ONE commit (a partial, non-empty set would pass the non-empty guard of _get_call_node).
 Second model: spec/sched/Scheduler.tla carries the scheduler's side -- the subtree task set a job hands to
 its ancestors (`sub`), the recorded nodes (`nodeTab`) and the ultimate-reduction hit -- over every schedule of
 run / edit / run / revert / run plans; deviation DevCseSubtree (a CSE-answered job reported only its own
@@ -40,8 +43,10 @@ META = {
                   "named as-built deviation, removed by a repair switch. Every scenario is executed on "
                   "the real backend (real process deaths, db_retry, put_records) and every real run is "
                   "validated by TLC against the model including its CallSubtreeTask rows.",
-    "level_note": "One fixed workload (shallow parent over child over grandchild), one injection per "
-                  "history, at most one edit, sqlite, transfer of whole executions only.",
+    "level_note": "Two fixed workloads (shallow parent over child over grandchild; the same with the child "
+                  "declared prov=False, where record_call_node records the subtree tasks before the "
+                  "subtree rows), one injection per history, one edit or edit + revert, sqlite, transfer "
+                  "of whole executions only.",
     "technique": "explicit TLA+ spec + TLC exhaustive check; spec->code scenario replay with real "
                  "crash/fault injection and record transfer; code->spec batched trace validation and "
                  "contract evaluation by TLC",
